@@ -90,7 +90,11 @@ def scenario(pk, params, inp):
         a = C(aid)
         pl = list(a.players)
         ids = pk.coalition_ids
+        import numpy as np
         out = {"players": pl, "len": len(a), "roundtrip": _id(C.from_players(pl)),
+               # a set of players may be handed over with repetitions, in any order, or as a one-shot iterator (Iterable[Player])
+               "roundtrip_variants": [_id(C.from_players(pl + pl[::-1])), _id(C.from_players(iter(reversed(pl)))),
+                                      _id(C.from_players(tuple(pl[1:] + pl[:1])))],
                "subs": sorted(int(c.id) for c in co.get_sub_coalitions(a)),
                "supers": sorted(int(c.id) for c in co.get_super_coalitions(a, n)),
                "id_players": [int(x) for x in ids.players(aid, n)], "id_size": int(ids.get_size(aid, n)),
@@ -179,6 +183,8 @@ def claims(params, inp, out, lg):
         cl.append(("players-ascending-no-duplicates", out["players"] == sorted(set(out["players"]))))
         cl.append(("len-is-cardinality", out["len"] == len(ref_players)))
         cl.append(("from-players-roundtrip", (out["roundtrip"] == a) if sym else out["roundtrip"] == a))
+        for vi, rv in enumerate(out["roundtrip_variants"]):
+            cl.append((f"from-players-is-a-set-operation:variant={vi}", (rv == a) if sym else rv == a))
         ref_subs = sorted(F.subsets_of(val))
         ref_supers = sorted(val | s for s in F.subsets_of((2 ** n - 1) & ~val))
         cl.append(("sub-coalitions-exact-once", out["subs"] == ref_subs))
